@@ -160,6 +160,12 @@ PROVENANCES = {
     "convert_labels_to_integers(SC)": lambda r, n, e: xgi.convert_labels_to_integers(_SC(n, e)),
     "convert_labels_to_integers(DH)": lambda r, n, e: xgi.convert_labels_to_integers(_DH(r, n, e)),
     "cleanup(not in_place)": lambda r, n, e: _H(n, e).cleanup(in_place=False, connected=False),
+    # relabelling in place / through cleanup, all three classes, from networks whose IDs are strings, decreasing ints, gaps
+    "relabel in place (H)": lambda r, n, e: _relabelled(_H(n, e), r),
+    "relabel in place (SC)": lambda r, n, e: _relabelled(_SC(n, e), r),
+    "relabel in place (DH)": lambda r, n, e: _relabelled(_DH(r, n, e), r),
+    "relabel in place (SC, string ids)": lambda r, n, e: _relabelled(_SC(n, [("s%d" % i, ms) for i, (_, ms) in enumerate(e)]), r),
+    "relabel in place (H, string ids)": lambda r, n, e: _relabelled(_H(n, [("s%d" % i, ms) for i, (_, ms) in enumerate(e)]), r),
     "merge_duplicate_edges(new)": lambda r, n, e: _inplace(_H(n, e + [(99, e[0][1])]), lambda H: H.merge_duplicate_edges(rename="new")),
     "merge_duplicate_edges(tuple)": lambda r, n, e: _inplace(_H(n, e + [(99, e[0][1])]), lambda H: H.merge_duplicate_edges(rename="tuple")),
     "dual": lambda r, n, e: _H(n, e).dual(),
@@ -219,6 +225,17 @@ def _ante_np(r, n, e, directed):
                 H.add_node_to_edge(i, x, "in" if j % 2 else "out")
             else:
                 H.add_node_to_edge(i, x)
+    return H
+
+
+def _relabelled(H, r):
+    """H relabelled in place, either directly or through cleanup (which relabels by default)"""
+    if r.random() < 0.5:
+        xgi.convert_labels_to_integers(H, in_place=True)
+    elif isinstance(H, xgi.DiHypergraph):
+        H.cleanup(isolates=True)
+    else:
+        H.cleanup(isolates=True, singletons=True, multiedges=True, connected=False)
     return H
 
 
